@@ -216,8 +216,9 @@ template <class A> mc::Outcome sortAndVerify(const std::vector<std::string>& nam
 {
 	if constexpr (HasSortHelpers<A>::value) {
 		sorted = names;
-		std::sort(sorted.begin(), sorted.end(), A::ComparePathFilenames);
-		return mc::guarded([&] { A::VerifySortedContainerHasNoDuplicateNames(sorted); });
+		std::sort(sorted.begin(), sorted.end(), A::ComparePathFilenames);                   // as the archive writers do: sort the paths,
+		for (auto& p : sorted) p = XFile::GetFilename(p);                                   // take the member names,
+		return mc::guarded([&] { A::VerifySortedContainerHasNoDuplicateNames(sorted); });   // and check neighbours
 	}
 	else {
 		sorted.clear();
@@ -232,7 +233,9 @@ template <class A> mc::Outcome sortAndVerify(const std::vector<std::string>& nam
 
 void sortAndDuplicates(Ctx& ctx, int maxLen)
 {
-	const std::vector<std::string> pool = { "a", "A", "ab", "aB", "a_", "b", "B.x", "b.X", "z9", "Z9" };
+	// paths to pack: plain names, names with a backslash (an ordinary character here), and names below a directory (the member name is the last component)
+	const std::vector<std::string> pool = { "a", "A", "ab", "aB", "a_", "b", "B.x", "b.X", "z9", "Z9", "z\\a", "Z\\A", "d/A" };
+	auto nameOf = [](const std::string& p) { auto s = p.rfind('/'); return s == std::string::npos ? p : p.substr(s + 1); };
 	auto fold = [](const std::string& x) { std::string r = x; for (auto& c : r) if (c >= 'A' && c <= 'Z') c = char(c + 32); return r; };
 	std::vector<int> idx;
 	uint64_t lists = 0;
@@ -240,6 +243,7 @@ void sortAndDuplicates(Ctx& ctx, int maxLen)
 		ctx.count("binding/fallback-keys");
 		std::string dir = ctx.freshDir("sortdup");
 		if (::chdir(dir.c_str()) != 0) std::abort();
+		mc::makeDir("d");
 		for (auto& n : pool) mc::writeFile(n, n.data(), 1);
 	}
 	std::map<std::vector<std::string>, std::vector<std::string>> sortedOf;   // set of names (sorted bytewise) -> sequence after the library sort
@@ -247,7 +251,7 @@ void sortAndDuplicates(Ctx& ctx, int maxLen)
 		{
 			std::vector<std::string> names; for (int i : idx) names.push_back(pool[i]);
 			std::vector<std::string> sorted;
-			bool dup = false; { std::set<std::string> seen; for (auto& n : names) if (!seen.insert(fold(n)).second) dup = true; }
+			bool dup = false; { std::set<std::string> seen; for (auto& n : names) if (!seen.insert(fold(nameOf(n))).second) dup = true; }
 			std::string key; for (auto& n : names) key += n + " ";
 			if ((lists & 255) == 0) ctx.sub("names " + key);
 			auto o = sortAndVerify<Archive::ArchiveFile>(names, sorted);
